@@ -9,6 +9,7 @@ import (
 	"go/token"
 	"go/types"
 	"log/slog"
+	"os"
 	"path/filepath"
 	"sort"
 	"strconv"
@@ -47,7 +48,7 @@ func (p *Parser) ParseFile(filename string, varPool *VarPool) (*MetaData, []*Bui
 		return nil, nil, fmt.Errorf("parse file %s: %w", filename, err)
 	}
 
-	pkg, err := p.initializePackages(filename)
+	pkg, err := p.initializePackages(filename, astFile.Name.Name)
 	if err != nil {
 		return nil, nil, fmt.Errorf("initialize packages: %w", err)
 	}
@@ -186,13 +187,23 @@ func (p *Parser) ParseFile(filename string, varPool *VarPool) (*MetaData, []*Bui
 }
 
 // initializeSSA initializes SSA analysis for a file.
-func (p *Parser) initializePackages(filename string) (*packages.Package, error) {
+func (p *Parser) initializePackages(filename, pkgName string) (*packages.Package, error) {
 	// Load packages using the new packages API
 	cfg := &packages.Config{
 		Mode: packages.NeedName | packages.NeedFiles | packages.NeedCompiledGoFiles |
 			packages.NeedImports | packages.NeedTypes | packages.NeedTypesSizes |
 			packages.NeedSyntax | packages.NeedTypesInfo,
 		Fset: p.fset,
+	}
+
+	// The previous output of this file is about to be overwritten. Load the package as if
+	// that file were empty: what a stale or truncated output declares must not take part in
+	// type-checking the user's declarations (a leftover function can shadow or clash with
+	// the identifiers provider expressions refer to).
+	if absOutput, err := filepath.Abs(outputFileName(filename)); err == nil {
+		if _, statErr := os.Stat(absOutput); statErr == nil {
+			cfg.Overlay = map[string][]byte{absOutput: []byte("package " + pkgName + "\n")}
+		}
 	}
 
 	// Load the specific file and its dependencies
